@@ -9,6 +9,7 @@ without contacting the origin; the same for u2 when a link header named it (rela
 absolute URL with the same host:port).
 """
 from vverif import lockstep as ls
+from vverif import lsx
 from vverif.core import Result, Violation, HarnessError
 
 LEVEL = 'exploration'
@@ -63,7 +64,7 @@ def all_cases(quick):
 
 
 def make_world(ctx, shard):
-    return ls.World(ctx, 'w%d' % shard, ls.port_base_for_check(ctx.pid, shard), memory_cache=True)
+    return lsx.RetryWorld(ctx, 'w%d' % shard, ls.port_base_for_check(ctx.pid, shard), memory_cache=True)
 
 
 def _link_value(w, form, n):
